@@ -271,51 +271,72 @@ func enumerated(c *pkit.Ctx) {
 		offset = 0
 	}
 	done := 0
+	// each chunk of types is generated under all six plugins together and under each plugin alone
+	// (imports and helpers requested by one plugin can mask what another one forgets)
+	variants := []string{"all", "equal", "compare", "hash", "clone", "gostring", "deepcopy"}
+	job := 0
 	for pk := 0; pk < npk; pk++ {
-		if pk%stride != offset || (pk/stride)%c.NShards != c.Shard%c.NShards {
-			continue
-		}
-		p := progen.NewProg(env)
-		used := progen.Used{}
-		var calls []string
-		lo, hi := pk*per, (pk+1)*per
-		if hi > len(all) {
-			hi = len(all)
-		}
-		for i, t := range all[lo:hi] {
-			sfx := fmt.Sprintf("E%d", lo+i)
-			ts := p.T(t)
-			for _, c := range []*progen.Call{progen.Equal(ts, sfx), progen.Compare(ts, sfx), progen.Hash(ts, sfx), progen.Clone(ts, sfx)} {
-				p.Add("%s", c.Render(progen.FormBody, "W"+c.Plugin+sfx))
+		for _, variant := range variants {
+			job++
+			if pk%stride != offset || job%c.NShards != c.Shard%c.NShards {
+				continue
 			}
-			used.Claim(sfx)
-			if !t.HasExtPrivate() {
-				g := progen.GoString(ts, sfx)
-				p.Add("%s", g.Render(progen.FormBody, "Wgostring"+sfx))
+			p := progen.NewProg(env)
+			var calls []string
+			lo, hi := pk*per, (pk+1)*per
+			if hi > len(all) {
+				hi = len(all)
 			}
-			if u := t.Under(); u.Kind == progen.Ptr || u.Kind == progen.Slice || u.Kind == progen.Map {
-				// DeepCopy takes *T, []T or map[K]T; the other shapes are reached as *T one level up
-				dc := progen.DeepCopy(ts, sfx)
-				p.Add("%s", dc.Render(progen.FormBody, "Wdeepcopy"+sfx))
+			on := func(pl string) bool { return variant == "all" || variant == pl }
+			for i, t := range all[lo:hi] {
+				sfx := fmt.Sprintf("E%d", lo+i)
+				restore := p.Snapshot()
+				emitted := false
+				ts := p.T(t)
+				for _, c := range []*progen.Call{progen.Equal(ts, sfx), progen.Compare(ts, sfx), progen.Hash(ts, sfx), progen.Clone(ts, sfx)} {
+					if on(c.Plugin) {
+						p.Add("%s", c.Render(progen.FormBody, "W"+c.Plugin+sfx))
+						emitted = true
+					}
+				}
+				if on("gostring") && !t.HasExtPrivate() {
+					g := progen.GoString(ts, sfx)
+					p.Add("%s", g.Render(progen.FormBody, "Wgostring"+sfx))
+					emitted = true
+				}
+				if u := t.Under(); on("deepcopy") && (u.Kind == progen.Ptr || u.Kind == progen.Slice || u.Kind == progen.Map) {
+					// DeepCopy takes *T, []T or map[K]T; the other shapes are reached as *T one level up
+					dc := progen.DeepCopy(ts, sfx)
+					p.Add("%s", dc.Render(progen.FormBody, "Wdeepcopy"+sfx))
+					emitted = true
+				}
+				if !emitted {
+					restore() // no call mentions this type: its import must not be recorded
+					continue
+				}
+				calls = append(calls, t.Str(p.Q()))
 			}
-			calls = append(calls, t.Str(p.Q()))
-		}
-		files := p.Files()
-		dir := c.CaseDir()
-		gorun.WriteFiles(dir, files)
-		c.Rep.Eval()
-		c.Rep.Class("enumerated-package")
-		c.Rep.NT(files["p/calls.go"])
-		sig, msg := Judge(dir, []string{"./p"})
-		os.RemoveAll(dir)
-		if sig != nil && sig["oracle"] == "infra" {
-			c.Rep.Inconcl("%s", msg)
-			continue
-		}
-		done++
-		if sig != nil {
-			sig["part"] = "enumerated"
-			c.FailNow(sig, msg+"\ntypes: "+strings.Join(calls, "; "), files, map[string]any{"patterns": []string{"./p"}})
+			files := p.Files()
+			if !strings.Contains(files["p/calls.go"], "derive") {
+				continue
+			}
+			dir := c.CaseDir()
+			gorun.WriteFiles(dir, files)
+			c.Rep.Eval()
+			c.Rep.Class("enumerated-package")
+			c.Rep.NT(files["p/calls.go"])
+			sig, msg := Judge(dir, []string{"./p"})
+			os.RemoveAll(dir)
+			if sig != nil && sig["oracle"] == "infra" {
+				c.Rep.Inconcl("%s", msg)
+				continue
+			}
+			done++
+			if sig != nil {
+				sig["part"] = "enumerated"
+				sig["plugins"] = variant
+				c.FailNow(sig, msg+"\nplugins: "+variant+"\ntypes: "+strings.Join(calls, "; "), files, map[string]any{"patterns": []string{"./p"}})
+			}
 		}
 	}
 	c.Rep.AddExtra("enumerated_packages", int64(done))
